@@ -4,6 +4,7 @@ package pubsub
 // event queue, output collection, event-log digest, violations, probes.
 
 import (
+	"os"
 	"container/heap"
 	"context"
 	"crypto/sha256"
@@ -168,6 +169,7 @@ type simEvent struct {
 	seq uint64
 	tag string
 	run func()
+	writer bool // a parked stream writer continues (drained inside settle)
 }
 type evHeap []*simEvent
 
@@ -199,6 +201,7 @@ type sim struct {
 
 	evq   evHeap
 	evseq uint64
+	lastEvent *simEvent
 
 	steps    int
 	maxSteps int
@@ -212,6 +215,9 @@ type sim struct {
 	obs      []string // observations made by SUT-side callbacks since last collect (digest only)
 	gatesNew []*gate
 	calls    []*call
+	popWait  []*popWaiter
+	qnames   map[*rpcQueue]string
+	nameQueue func(q *rpcQueue) string
 
 	hosts    []*simHost
 	nodes    []*simNode
@@ -284,7 +290,7 @@ func (s *sim) logf(format string, a ...any) {
 	s.dig.Write([]byte(line))
 	s.logN++
 	if s.keepLog {
-		s.logLines = append(s.logLines, fmt.Sprintf("%6d %14s %s", s.steps, s.now(), line))
+		s.logLines = append(s.logLines, fmt.Sprintf("%6d %14s [r%d] %s", s.steps, s.now(), simrand.Draws.Load(), line))
 	}
 }
 
@@ -334,13 +340,36 @@ func (s *sim) at(t time.Duration, tag string, fn func()) *simEvent {
 // asap runs fn as the next step at the current instant (not snapped; used for same-instant chains).
 func (s *sim) asap(tag string, fn func()) {
 	s.evseq++
-	heap.Push(&s.evq, &simEvent{at: s.now(), seq: s.evseq, tag: tag, run: fn})
+	e := &simEvent{at: s.now(), seq: s.evseq, tag: tag, run: fn}
+	s.lastEvent = e
+	heap.Push(&s.evq, e)
 }
 
 // settle waits for quiescence of every goroutine in the bubble and collects outputs.
 func (s *sim) settle() {
 	synctest.Wait()
 	s.collect()
+	// Stream writers waiting to take their next RPC continue now, one per quiescence, in canonical
+	// order: output produced by an input is on the (simulated) wire when settle returns, as it was
+	// before writers became scheduler-owned.
+	for s.qnames != nil {
+		idx := -1
+		for i, e := range s.evq {
+			if e.writer && (idx < 0 || e.seq < s.evq[idx].seq) {
+				idx = i
+			}
+		}
+		if idx < 0 {
+			return
+		}
+		e := s.evq[idx]
+		heap.Remove(&s.evq, idx)
+		s.steps++
+		s.logf("EV %s", e.tag)
+		e.run()
+		synctest.Wait()
+		s.collect()
+	}
 }
 
 // run executes events until virtual time `until` (offset from epoch) or until stopped.
@@ -403,6 +432,8 @@ func (s *sim) collect() {
 	s.calls = nil
 	gnew := s.gatesNew
 	s.gatesNew = nil
+	pops := s.popWait
+	s.popWait = nil
 	s.mu.Unlock()
 
 	// API call completions
@@ -421,6 +452,21 @@ func (s *sim) collect() {
 		s.logf("GATE %s", g.id)
 		if g.onArrive != nil {
 			g.onArrive(g)
+		}
+	}
+	// stream writers that want to take their next RPC: each continues as its own event, in a
+	// canonical order (the event loop is idle by then: everything it pushed in one iteration is in
+	// the queue before any writer takes something out)
+	if len(pops) > 0 {
+		for _, pw := range pops {
+			pw.name = s.queueBase(pw.q)
+		}
+		sort.SliceStable(pops, func(i, j int) bool { return pops[i].name < pops[j].name })
+		for _, pw := range pops {
+			pw := pw
+			pw.name = s.queueName(pw.q, pw.name)
+			s.asap("writer-takes "+pw.name, func() { close(pw.ch) })
+			s.lastEvent.writer = true
 		}
 	}
 	// writes
@@ -445,6 +491,81 @@ func (s *sim) collect() {
 	}
 	for _, f := range s.stepFns {
 		f()
+	}
+	if s.keepLog && debugState {
+		for _, n := range s.nodes {
+			s.logLines = append(s.logLines, "        STATE "+n.stateSummary())
+		}
+	}
+}
+
+var debugState = os.Getenv("VERIF_DEBUG_STATE") != ""
+
+// ---------------------------------------------------------------------------------------------
+// scheduler-owned stream writers (verifPopTake hook)
+
+type popWaiter struct {
+	q    *rpcQueue
+	ch   chan struct{}
+	name string
+}
+
+// scheduleWriters makes every take of an RPC from an outbound queue a simulator event. Without
+// it the writer goroutine races with the event loop that fills the queue: whether two RPCs pushed
+// back to back meet a full queue of size 1 would be the Go scheduler's choice.
+func (s *sim) scheduleWriters() {
+	s.qnames = map[*rpcQueue]string{}
+	verifYieldQueueFn = func(q *rpcQueue, point int) {
+		if point != verifPopTake {
+			return
+		}
+		pw := &popWaiter{q: q, ch: make(chan struct{})}
+		s.mu.Lock()
+		s.popWait = append(s.popWait, pw)
+		s.mu.Unlock()
+		s.poke()
+		<-pw.ch
+	}
+}
+
+// queueBase (root, at quiescence): "<node>><peer>" of an outbound queue ("~" once it has been
+// replaced or removed).
+func (s *sim) queueBase(q *rpcQueue) string {
+	if n, ok := s.qnames[q]; ok {
+		return n
+	}
+	for _, n := range s.nodes {
+		if n.ps == nil {
+			continue
+		}
+		for p, pq := range n.ps.peers {
+			if pq == q {
+				return n.name + ">" + shortPeer(p)
+			}
+		}
+	}
+	return "~"
+}
+
+// queueName: stable name of a queue, assigned (in canonical order) the first time it is seen.
+func (s *sim) queueName(q *rpcQueue, base string) string {
+	if n, ok := s.qnames[q]; ok {
+		return n
+	}
+	name := fmt.Sprintf("%s#%d", base, len(s.qnames))
+	s.qnames[q] = name
+	return name
+}
+
+// releaseWriters (teardown): let every parked writer go.
+func (s *sim) releaseWriters() {
+	verifYieldQueueFn = nil
+	s.mu.Lock()
+	pops := s.popWait
+	s.popWait = nil
+	s.mu.Unlock()
+	for _, pw := range pops {
+		close(pw.ch)
 	}
 }
 
